@@ -39,13 +39,23 @@ def __getattr__(name):
 
     @func.register(da.Array)
     def _(x, *args, **kwargs):
-        if name.endswith("n"):
-            # Given only ``s``, scipy transforms the last ``len(s)`` axes,
-            # whereas the dask wrapper would pick the first ones.
-            s = args[0] if args else kwargs.get("s")
-            axes = args[1] if len(args) > 1 else kwargs.get("axes")
-            if s is not None and axes is None and len(args) < 2:
-                kwargs["axes"] = tuple(range(x.ndim - len(s), x.ndim))
+        if name.endswith(("2", "n")):
+            # Resolve ``s`` and ``axes`` as scipy does (the dask wrapper would pick
+            # the first axes for a given ``s``, ignores an explicit ``axes=None``
+            # and cannot handle -1 entries in ``s``).
+            given = dict(zip(("s", "axes"), args[:2]), **kwargs)
+            s, axes = given.get("s"), given.get("axes")
+            if axes is None and ("axes" in given or s is not None or name.endswith("n")):
+                n_axes = x.ndim if s is None else len(s)
+                axes = tuple(range(x.ndim - n_axes, x.ndim))
+            if s is not None and axes is not None:
+                s = tuple(x.shape[a] if n == -1 else n for n, a in zip(s, axes))
+            args = args[2:]
+            kwargs = {k: v for k, v in kwargs.items() if k not in ("s", "axes")}
+            if s is not None:
+                kwargs["s"] = s
+            if axes is not None:
+                kwargs["axes"] = axes
         wrapped_func = da.fft.fft_wrap(_fft_func)
         return wrapped_func(x, *args, **kwargs)
 
